@@ -170,7 +170,8 @@ func mkNamespace(odd bool, prefix string) namespace {
 }
 
 // genOps draws a workload on the root goroutine. 0 is always the mildest choice.
-func genOps(w *vsim.World, label string, ns namespace, mean, blk int, withSaves bool) []fsop {
+func genOps(w *vsim.World, label string, ns namespace, mean, blk int, withSaves bool, shared ...bool) []fsop {
+	sharedDirs := len(shared) > 0 && shared[0]
 	var ops []fsop
 	anyPath := append(append([]string{}, ns.files...), ns.dirs...)
 	for len(ops) < 400 && w.Choose(label+"-more", mean+1) != 0 {
@@ -179,6 +180,10 @@ func genOps(w *vsim.World, label string, ns namespace, mean, blk int, withSaves 
 		kinds := []int{opWrite, opOpen, opRead, opWrite, opSeek, opOpen, opTrunc, opSize, opClose, opMkdir, opRename, opRemove, opRemoveAll, opStat, opReaddir, opRead, opWrite}
 		if withSaves {
 			kinds = append(kinds, opFlush, opMarshal, opSync, opFlush)
+		}
+		if sharedDirs {
+			// workers of C13 share the directories: only file-level operations
+			kinds = []int{opWrite, opOpen, opRead, opWrite, opSeek, opOpen, opTrunc, opSize, opClose, opRename, opRemove, opStat, opReaddir, opRead, opWrite, opWrite}
 		}
 		o.kind = kinds[w.Choose(label+"-kind", len(kinds))]
 		o.slot = w.Choose(label+"-slot", 4)
@@ -199,7 +204,7 @@ func genOps(w *vsim.World, label string, ns namespace, mean, blk int, withSaves 
 			if w.Choose(label+"-append", 4) == 3 {
 				o.flags |= os.O_APPEND
 			}
-			if w.Choose(label+"-opendir", 12) == 11 {
+			if !sharedDirs && w.Choose(label+"-opendir", 12) == 11 {
 				o.p1 = ns.dirs[w.Choose(label+"-dpath", len(ns.dirs))]
 				o.flags = os.O_RDONLY
 			}
@@ -215,7 +220,10 @@ func genOps(w *vsim.World, label string, ns namespace, mean, blk int, withSaves 
 		case opMkdir:
 			o.p1 = ns.dirs[w.Choose(label+"-dpath", len(ns.dirs))]
 		case opRename:
-			if w.Choose(label+"-rdir", 4) == 3 {
+			if sharedDirs {
+				o.p1 = ns.files[w.Choose(label+"-path", len(ns.files))]
+				o.p2 = ns.files[w.Choose(label+"-path2", len(ns.files))]
+			} else if w.Choose(label+"-rdir", 4) == 3 {
 				o.p1 = ns.dirs[w.Choose(label+"-dpath", len(ns.dirs))]
 				o.p2 = ns.dirs[w.Choose(label+"-dpath2", len(ns.dirs))]
 			} else {
@@ -224,6 +232,9 @@ func genOps(w *vsim.World, label string, ns namespace, mean, blk int, withSaves 
 			}
 		case opRemove, opRemoveAll, opStat:
 			o.p1 = anyPath[w.Choose(label+"-apath", len(anyPath))]
+			if sharedDirs {
+				o.p1 = ns.files[w.Choose(label+"-path", len(ns.files))]
+			}
 		case opReaddir:
 			o.p1 = append([]string{""}, ns.dirs...)[w.Choose(label+"-rdpath", len(ns.dirs)+1)]
 		case opFlush:
@@ -248,6 +259,55 @@ type executor struct {
 	ownOnly func(name string) bool                 // C13: restrict listings to own names
 	hist    func(ev histEvent)                     // C13: record per-file history
 	blk     int
+	// C13: per-path version history for the save-window oracle, and inode identities
+	vers    map[string][]pathVersion
+	inodes  map[*mnode]inode
+}
+
+type pathVersion struct {
+	call, ret int64
+	data      []byte
+	absent    bool
+}
+
+func (x *executor) stamp() int64 {
+	if x.hist == nil {
+		return 0
+	}
+	return x.w.Stamp()
+}
+
+func (x *executor) pathOf(n *mnode) string {
+	var find func(d *mnode, prefix string) string
+	find = func(d *mnode, prefix string) string {
+		for name, k := range d.kids {
+			p := name
+			if prefix != "" {
+				p = prefix + "/" + name
+			}
+			if k == n {
+				return p
+			}
+			if k.dir {
+				if r := find(k, p); r != "" {
+					return r
+				}
+			}
+		}
+		return ""
+	}
+	return find(x.m.root, "")
+}
+
+func (x *executor) version(path string, call, ret int64, node *mnode) {
+	if x.vers == nil || path == "" {
+		return
+	}
+	v := pathVersion{call: call, ret: ret, absent: node == nil}
+	if node != nil {
+		v.data = append([]byte(nil), node.data...)
+	}
+	x.vers[path] = append(x.vers[path], v)
 }
 
 type histEvent struct {
@@ -333,7 +393,9 @@ func (x *executor) apply(o fsop) {
 			x.h[o.slot].f.Close()
 			x.h[o.slot] = nil
 		}
+		c0 := x.stamp()
 		f, err := x.fs.OpenFile(o.p1, o.flags, 0644)
+		r0 := x.stamp()
 		if (err != nil) != expectErr {
 			x.bad("fs/open-error-class", "OpenFile(%q,%#x): err=%v, model expects error=%v", o.p1, o.flags, err, expectErr)
 			return
@@ -345,11 +407,18 @@ func (x *executor) apply(o fsop) {
 		if node == nil {
 			node = &mnode{}
 			parent.kids[name] = node
+			x.version(o.p1, c0, r0, node)
 		} else if o.flags&os.O_TRUNC != 0 {
-			if x.hist != nil && len(node.data) > 0 {
-				x.hist(histEvent{node: node, kind: "trunc", size: 0})
-			}
 			node.data = nil
+			if x.hist != nil {
+				x.hist(histEvent{node: node, kind: "trunc", size: 0, call: c0, ret: r0})
+			}
+			x.version(o.p1, c0, r0, node)
+		}
+		if x.inodes != nil {
+			if fh, ok := f.(*filehandle); ok {
+				x.inodes[node] = fh.inode
+			}
 		}
 		x.h[o.slot] = &handle{f: f, node: node, readable: readable, writable: writable, app: o.flags&os.O_APPEND != 0}
 	case opWrite:
@@ -361,7 +430,9 @@ func (x *executor) apply(o fsop) {
 			return // zero-length write beyond EOF (extend or not): not specified by the property
 		}
 		data := wdata(o.idx, o.n)
+		c0 := x.stamp()
 		n, err := h.f.Write(data)
+		r0 := x.stamp()
 		if !h.writable {
 			if err == nil {
 				x.bad("fs/write-through-readonly-handle", "Write on O_RDONLY handle succeeded (n=%d)", n)
@@ -379,6 +450,10 @@ func (x *executor) apply(o fsop) {
 			h.node.data = append(h.node.data, make([]byte, end-int64(len(h.node.data)))...)
 		}
 		copy(h.node.data[h.off:], data)
+		if x.hist != nil {
+			x.hist(histEvent{node: h.node, kind: "write", off: h.off, data: data, call: c0, ret: r0})
+			x.version(x.pathOf(h.node), c0, r0, h.node)
+		}
 		h.off += int64(len(data))
 		if len(data) > x.blk {
 			x.w.Probe("write-spans-blocks")
@@ -459,7 +534,10 @@ func (x *executor) apply(o fsop) {
 		if h == nil || h.node.dir || !h.writable {
 			return
 		}
-		if err := h.f.Truncate(int64(o.n)); err != nil {
+		c0 := x.stamp()
+		err := h.f.Truncate(int64(o.n))
+		r0 := x.stamp()
+		if err != nil {
 			x.bad("fs/truncate-failed", "Truncate(%d): %v", o.n, err)
 			return
 		}
@@ -469,7 +547,8 @@ func (x *executor) apply(o fsop) {
 			h.node.data = append(h.node.data, make([]byte, o.n-len(h.node.data))...)
 		}
 		if x.hist != nil {
-			x.hist(histEvent{node: h.node, kind: "trunc", size: int64(o.n)})
+			x.hist(histEvent{node: h.node, kind: "trunc", size: int64(o.n), call: c0, ret: r0})
+			x.version(x.pathOf(h.node), c0, r0, h.node)
 		}
 		x.checkSegments(h.f)
 	case opSize:
@@ -526,7 +605,9 @@ func (x *executor) apply(o fsop) {
 		if x.ownOnly != nil && dst != nil && src != dst {
 			return
 		}
+		c0 := x.stamp()
 		err := x.fs.Rename(o.p1, o.p2)
+		r0 := x.stamp()
 		if (err != nil) != expectErr {
 			x.bad("fs/rename-error-class", "Rename(%q,%q): err=%v, model expects error=%v", o.p1, o.p2, err, expectErr)
 			return
@@ -537,6 +618,8 @@ func (x *executor) apply(o fsop) {
 			} else {
 				delete(op.kids, on)
 				np.kids[nn] = src
+				x.version(o.p1, c0, r0, nil)
+				x.version(o.p2, c0, r0, src)
 				if dst != nil {
 					x.w.Probe("rename-replaces-file")
 				}
@@ -556,7 +639,11 @@ func (x *executor) apply(o fsop) {
 		expectErr := false
 		if o.kind == opRemove {
 			expectErr = node == nil || (node.dir && len(node.kids) > 0)
+			c0 := x.stamp()
 			err = x.fs.Remove(o.p1)
+			if err == nil && node != nil && !node.dir {
+				x.version(o.p1, c0, x.stamp(), nil)
+			}
 		} else {
 			// RemoveAll of a missing path is nil, like os.RemoveAll; a path THROUGH a file is
 			// not specified by the property: the result is not judged.
